@@ -138,8 +138,9 @@ class Injector:
                 break
             c = f.f_code
             if c.co_name == '__del__' or (c.co_name in ('_run_finalizers', '__call__')
-                                          and 'multiprocessing/util.py' in c.co_filename):
-                return None
+                                          and 'multiprocessing/util.py' in c.co_filename) \
+                    or c.co_filename.endswith(('/_weakrefset.py', '/weakref.py')):
+                return None     # ... and inside weak-reference callbacks (WeakSet._remove while a Thread is collected)
             f = f.f_back
         self._pending = None
         self._delivery_events(False)
